@@ -117,6 +117,9 @@ class Session:
         h[RJSON + '.vAssert'] = self._assert
         h[RJSON + '.vReach'] = self._reach
         h[RJSON + '.vNumValue'] = self._numvalue
+        h[RJSON + '.vCostBytes'] = lambda ex, st, fr, ins, a: st.heap[ex.cost_oid][1][0]
+        h[RJSON + '.vCostReset'] = self._costreset
+        h[RJSON + '.vAssertCost'] = self._assert_cost
         h[RJSON + '.vAllocWatch'] = self._allocwatch
         h[RJSON + '.vAllocs'] = lambda ex, st, fr, ins, a: sum(1 for k, s in st.flags if k == 'alloc')
         h[RJSON + '.vNondetUint64'] = lambda ex, st, fr, ins, a: self._nondet(st, a, 64)
@@ -200,6 +203,38 @@ class Session:
         else:
             st.flags = st.flags - {('watch', '')}
         return None
+
+    def _costreset(self, ex, st, fr, ins, args):
+        st.heap[ex.cost_oid] = ('A', (0, ('U', ())))
+        return None
+
+    def _assert_cost(self, ex, st, fr, ins, args):
+        """vAssert whose failure description names the allocation sites whose amount depends on a
+        size hint that is *responsible* for the failure (bounding that hint by 64 makes the violation
+        impossible), so that a known finding is identified by site and hint and a different
+        super-linear site is still reported"""
+        c = args[0]
+        aid = bytes(args[1][1]).decode()
+        label = aid
+        if c is not True:
+            syms = st.heap[ex.cost_oid][1][1][1]
+            bad = ex.store.bnot(c) if c.__class__ is Term else True
+            resp = set()
+            if c.__class__ is Term:
+                for i, v in enumerate(ex.store.vars):
+                    if (c.vars >> i) & 1 and v.kind == 'free' and v.w == 64:
+                        vt = ex.store._mk('var', v.w, (v.idx,), v.bit)
+                        r = ex.solver.check(st.pc, st.extras, (bad, ex.store.mk('ule', 0, vt, 64)), st.raw)
+                        if r == 'unsat':
+                            resp.add(i)
+            sites = []
+            for ent in syms:
+                site, amount = ent[1]
+                names = sorted(set(ex.store.vars[i].name.split('#')[0] for i in resp if (amount.vars >> i) & 1))
+                if names:
+                    sites.append('%s<-%s' % (bytes(site[1]).decode(), '+'.join(names)))
+            label = aid + ' hint-proportional=' + (','.join(sorted(set(sites))) or 'none')
+        return self._assert(ex, st, fr, ins, [c, ('Z', tuple(label.encode()))])
 
     def no_float_overflow(self):
         self.ex.hooks[RJSON + '.vNumOverflows'] = lambda ex, st, fr, ins, a: False
